@@ -40,7 +40,7 @@ def filter_valid(bodies, header="", tag="flt", kind="normal"):
 
 
 # ------------------------------------------------------------------------------------------------
-LEAVES = ['"a"', '"b"', '^"A"', "'a'..'b'", "ANY", '"ab"', 'x']
+LEAVES = ['"a"', '"b"', '^"A"', "'a'..'b'", "ANY", '"ab"', 'x', 'nx']
 UNARY = ["%s?", "%s*", "%s+", "%s{2}", "%s{1,}", "%s{,2}", "%s{1,2}", "&%s", "!%s", "PUSH(%s)"]
 
 
@@ -55,13 +55,16 @@ def fam_ops(tier):
     for l in LEAVES:
         bodies.append(l)
     for u in UNARY:
-        for l in LEAVES[:4] + ['x']:
+        for l in LEAVES[:4] + ['x', 'nx']:
             bodies.append(u % paren(l))
     for u1 in UNARY:
         for u2 in UNARY:
             for l in ['"a"', 'x']:
                 bodies.append(u1 % paren(u2 % paren(l)))
-    pairs = [('"a"', '"b"'), ('"a"', '"ab"'), ('"ab"', '"a"'), ('x', '"b"'), ('"a"?', '"a"'), ('"a"*', '"a"'), ('"a"', 'x*')]
+    for u1 in UNARY:
+        bodies.append(u1 % paren('nx ~ "b"'))
+        bodies.append('nx ~ ' + (u1 % paren('"b"')))
+    pairs = [('"a"', '"b"'), ('"a"', '"ab"'), ('"ab"', '"a"'), ('x', '"b"'), ('"a"?', '"a"'), ('"a"*', '"a"'), ('"a"', 'x*'), ('nx', '"b"'), ('"b"', 'nx')]
     for l1, l2 in pairs:
         for op in [" ~ ", " | "]:
             b = l1 + op + l2
@@ -79,7 +82,7 @@ def fam_ops(tier):
                 "PEEK", "POP", "DROP", "PEEK_ALL", "POP_ALL", "PUSH(\"a\") ~ PEEK", "PUSH(\"a\") ~ POP ~ \"b\"", "PUSH(ANY) ~ PUSH(ANY) ~ POP_ALL",
                 "PUSH(\"a\") ~ PUSH(\"b\") ~ PEEK_ALL", "PUSH(\"a\"+) ~ \"b\" ~ POP", "PUSH(ANY) ~ PEEK[0..1] ~ PEEK[-1..]", "PUSH(\"a\") ~ DROP ~ PEEK?"]
     bodies += builtins
-    hdr_x = rule("x", '"a" ~ "b"?')
+    hdr_x = rule("x", '"a" ~ "b"?') + "\n" + rule("nx", '"a"+ ~ "b"*', "nonatomic")
     plain = filter_valid(bodies, hdr_x, "ops_f1")
     withws = filter_valid(bodies, hdr_x + "\n" + WS_SP + "\n" + CM_HASH, "ops_f2")
     rules = []
@@ -355,3 +358,30 @@ def fam_dyck(tier):
              rule("top", "SOI ~ t* ~ EOI"), rule("a", '"(" ~ t* ~ ")"', "atomic"), rule("c", '"(" ~ (t | a)* ~ ")"', "compound"),
              rule("n", '"(" ~ c* ~ ")"', "nonatomic")]
     return [dict(id="dy0", text="\n".join(lines), alphabet=cps("()[]x"), maxlen=0, inputs=[])]
+
+
+def dyck_words(n):
+    """all balanced words with n pairs"""
+    if n == 0:
+        return [""]
+    out = []
+    for k in range(n):
+        for a in dyck_words(k):
+            for b in dyck_words(n - 1 - k):
+                out.append("(" + a + ")" + b)
+    return out
+
+
+def fam_dyck_inputs(tier):
+    g = fam_dyck(tier)[0]
+    ins = []
+    for n in range(1, 5 if tier == "quick" else 7):
+        for w in dyck_words(n):
+            if w.count("(") == n and w[0] == "(":
+                # single top-level tree only: "(" + inner + ")"
+                pass
+            ins.append(w)
+    trees = ["(" + w + ")" for n in range(0, 4 if tier == "quick" else 6) for w in dyck_words(n)]
+    mixed = ["([x])", "([(())x])", "([x][x])", "(([x])[])", "([])", "((", "(()", "())", "([x)", "([(])"]
+    g["inputs"] = [cps(s) for s in sorted(set(trees + mixed + ins[:50]))]
+    return [g]
